@@ -1,6 +1,6 @@
 (** C18 — entry points of the correspondence check (model side). *)
 From Coq Require Import ZArith List Bool.
-From KV Require Import Base.IEEE Base.Outcome Base.Corr C18.Model C18.ModelFlac.
+From KV Require Import Base.IEEE Base.Outcome Base.Corr C18.Model C18.ModelWavExt C18.ModelFlac.
 Import ListNotations.
 Local Open Scope Z_scope.
 
@@ -8,6 +8,8 @@ Inductive case :=
 (** a valid file: the harness's own encoder produced bytes with FNV-1a hash [hash] from
     (format tag, bits, channels, rate, interleaved samples); kira loaded them *)
 | CStatic (tag bps ch rate : Z) (samples : list Z)
+(** the same under a WAVE_FORMAT_EXTENSIBLE header with channel mask [mask] *)
+| CStaticExt (tag bps ch rate mask : Z) (samples : list Z)
 (** arbitrary bytes in the canonical layout (corrupted / truncated files) *)
 | CBytes (bs : list Z)
 (** the scheduler model over a decoder with symphonia's WAV packetisation: which frame
@@ -103,6 +105,14 @@ Definition run (c : case) : list Z :=
           let sp := {| s_fmt := f; s_channels := ch; s_rate := rate |} in
           let file := encode sp (group ch samples) in
           fnv file :: enc_load (sym_load file)
+      end
+  | CStaticExt tag bps ch rate mask samples =>
+      match fmt_of tag bps with
+      | None => [-1]
+      | Some f =>
+          let sp := {| s_fmt := f; s_channels := ch; s_rate := rate |} in
+          let file := encode_ext sp mask (group ch samples) in
+          fnv file :: enc_load (ref_load_ext file)
       end
   | CBytes bs => enc_load (sym_load bs)
   | CStreamStart n start =>
